@@ -29,7 +29,7 @@ from xml.sax import handler
 from xml.sax.xmlreader import InputSource
 import xml.sax.saxutils
 from odf.element import Element
-from odf.namespaces import OFFICENS
+from odf.namespaces import OFFICENS, STYLENS
 try:
     from cStringIO import StringIO
 except ImportError:
@@ -50,11 +50,13 @@ class LoadParser(handler.ContentHandler):
         self.doc = document
         self.data = []
         self.level = 0
+        self.skip = 0                  # inside a font declaration that is skipped: its depth
+        self.fonts = []                # names of the fonts declared by the parts read before
         self.depth = 0                 # nesting depth of the current element, the root element is 1
         self.parse = False
 
     def characters(self, data):
-        if self.parse == False:
+        if self.parse == False or self.skip:
             return
         self.data.append(data)
 
@@ -65,9 +67,16 @@ class LoadParser(handler.ContentHandler):
         section = self.depth == 2 and tag in self.triggers
         if section:
             self.parse = True
-        if section and self.doc._parsing.rsplit('/', 1)[-1] != "styles.xml" and tag == (OFFICENS, 'font-face-decls'):
-            self.parse = False
+            if tag == (OFFICENS, 'font-face-decls'):
+                # the fonts a part read earlier has declared
+                self.fonts = [f.getAttrNS(STYLENS, 'name') for f in self.doc.fontfacedecls.childNodes if f.nodeType == 1]
         if self.parse == False:
+            return
+        # office:font-face-decls is read from content.xml and styles.xml; the parts usually repeat
+        # each other: a font that the other part has declared is skipped with its subtree
+        if self.skip or (tag == (STYLENS, 'font-face') and self.parent is self.doc.fontfacedecls and
+                attrs.get((STYLENS, 'name')) in self.fonts):
+            self.skip = self.skip + 1
             return
 
         self.level = self.level + 1
@@ -115,6 +124,9 @@ class LoadParser(handler.ContentHandler):
     def endElementNS(self, tag, qname):
         self.depth = self.depth - 1
         if self.parse == False:
+            return
+        if self.skip:
+            self.skip = self.skip - 1
             return
         self.level = self.level - 1
         str = ''.join(self.data)
